@@ -341,3 +341,188 @@ Proof.
     unfold tc_program. cbn [with_types p_types]. rewrite Hs. cbn [lift tbind guard].
     destruct (sanity_typedefs D') as [[|]| |]; cbn; try reflexivity. congruence.
 Qed.
+
+(* ---------------------------------------------------------------- permutations of function definitions *)
+Definition with_funs (fs : list fundef) (p : program) : program :=
+  {| p_procs := p_procs p; p_assumed := p_assumed p; p_funs := fs; p_types := p_types p |}.
+
+(* the per-function part of preliminaryFunctionDefinitionsChecks *)
+Definition pre1 (D : tenv) (f : fundef) : tcr fundef :=
+  tdo _ <- guard (match fn_type f with Some _ => true | None => false end) "missing type of provider";
+  tdo _ <- guard (forallb (fun p => match nty p with Some _ => true | None => false end) (fn_params f)) "parameter has a missing type";
+  tdo _ <- guard (all_names_unique (fn_params f)) "parameters defined more than once";
+  tdo ft <- add_missing_opt D (fn_type f);
+  tdo ps <- add_missing_names D (fn_params f);
+  tdo _ <- guard (sanity_types D (match ft with Some t => [t] | None => [] end ++ types_of ps)) "type error in function definition";
+  tdo _ <- indep_all (map nty ps) ft;
+  TOk {| fn_name := fn_name f; fn_params := ps; fn_body := fn_body f; fn_type := ft; fn_explicit := fn_explicit f |}.
+
+Lemma pre1_name D f o : pre1 D f = TOk o -> fn_name o = fn_name f.
+Proof. unfold pre1. intros H. tinv H. inversion H; reflexivity. Qed.
+
+Lemma prelim_funs_cons D f r seen :
+  prelim_funs D (f :: r) seen =
+  tdo _ <- guard (negb (str_mem (fn_name f) seen)) "duplicate function name";
+  tdo o <- pre1 D f;
+  tdo r' <- prelim_funs D r (fn_name f :: seen);
+  TOk (o :: r').
+Proof.
+  cbn [prelim_funs]. unfold pre1.
+  repeat match goal with
+  | |- tbind ?x _ = tbind ?x _ => destruct x; cbn [tbind]; try reflexivity
+  | |- tbind ?x _ = tbind (tbind ?x _) _ => destruct x; cbn [tbind]; try reflexivity
+  end.
+Qed.
+
+Lemma prelim_funs_spec D : forall fs seen out,
+  prelim_funs D fs seen = TOk out <->
+  Forall2 (fun f o => pre1 D f = TOk o) fs out /\ NoDup (map fn_name fs) /\ Forall (fun f => ~ In (fn_name f) seen) fs.
+Proof.
+  induction fs as [|f fs IH]; intros seen out.
+  - cbn [prelim_funs]. split.
+    + intros H; inversion H; subst. repeat split; constructor.
+    + intros (H & _). inversion H; reflexivity.
+  - rewrite prelim_funs_cons. split.
+    + intros H. tinv H. inversion H; subst. apply guard_ok in E.
+      apply IH in E1. destruct E1 as (H1 & H2 & H3).
+      assert (Hn : ~ In (fn_name f) seen).
+      { intro Hin. apply str_mem_In in Hin. rewrite Hin in E. discriminate. }
+      repeat split.
+      * constructor; assumption.
+      * cbn [map]. constructor; [|exact H2]. intro Hin. apply in_map_iff in Hin. destruct Hin as (g & Hg & Hgin).
+        rewrite Forall_forall in H3. apply (H3 g Hgin). left; congruence.
+      * constructor; [exact Hn|]. rewrite Forall_forall in *. intros g Hg Hin. apply (H3 g Hg). right; exact Hin.
+    + intros (H1 & H2 & H3). inversion H1 as [|? o ? r' Ho Hr]; subst. inversion H2; subst. inversion H3; subst.
+      assert (Em : str_mem (fn_name f) seen = false).
+      { destruct (str_mem (fn_name f) seen) eqn:E; [|reflexivity]. apply str_mem_In in E. contradiction. }
+      rewrite Em. cbn [negb guard tbind]. rewrite Ho. cbn [tbind].
+      assert (Hrec : prelim_funs D fs (fn_name f :: seen) = TOk r').
+      { apply IH. repeat split; [exact Hr | assumption|].
+        rewrite Forall_forall in *. intros g Hg [Hin|Hin]; [|exact (H7 g Hg Hin)].
+        apply H4. rewrite Hin. apply in_map, Hg. }
+      rewrite Hrec. reflexivity.
+Qed.
+
+Lemma Forall2_map_eq {A B C} (R : A -> B -> Prop) (g : A -> C) (h : B -> C) l m :
+  (forall a b, R a b -> h b = g a) -> Forall2 R l m -> map h m = map g l.
+Proof. intros H. induction 1; cbn; f_equal; auto. Qed.
+
+Lemma prelim_funs_perm D fs fs' out : Permutation fs fs' -> prelim_funs D fs [] = TOk out ->
+  exists out', prelim_funs D fs' [] = TOk out' /\ Permutation out out' /\ NoDup (map fn_name out).
+Proof.
+  intros Hp H. apply prelim_funs_spec in H. destruct H as (H1 & H2 & _).
+  destruct (Permutation_Forall2 Hp H1) as (out' & Hpo & H1').
+  exists out'. split; [|split; [exact Hpo|]].
+  - apply prelim_funs_spec. repeat split; [exact H1' | |apply Forall_forall; intros ? ? []].
+    eapply Permutation_NoDup; [apply Permutation_map, Hp | exact H2].
+  - rewrite (Forall2_map_eq _ fn_name fn_name _ _ (pre1_name D) H1). exact H2.
+Qed.
+
+(* sigma *)
+Definition sig1 (D : tenv) (f : fundef) : tcr fsig :=
+  tdo t <- unfold_opt D (fn_type f); TOk {| fs_name := fn_name f; fs_params := fn_params f; fs_type := t |}.
+Lemma make_sigma_spec D : forall fs Sg, make_sigma D fs = TOk Sg <-> Forall2 (fun f s => sig1 D f = TOk s) fs Sg.
+Proof.
+  induction fs as [|f fs IH]; intros Sg; cbn [make_sigma].
+  - split; [intros H; inversion H; constructor | intros H; inversion H; reflexivity].
+  - unfold sig1. split.
+    + intros H. tinv H. inversion H; subst. constructor; [now rewrite E | apply IH, E0].
+    + intros H. inversion H as [|? s ? r' Hs Hr]; subst. apply IH in Hr. tinv Hs. inversion Hs; subst.
+      rewrite E, Hr. reflexivity.
+Qed.
+Lemma sig1_name D f s : sig1 D f = TOk s -> fs_name s = fn_name f.
+Proof. unfold sig1. intros H. tinv H. inversion H; reflexivity. Qed.
+
+Lemma sig_lookup_none Sg x : ~ In x (map fs_name Sg) -> sig_lookup Sg x = None.
+Proof.
+  induction Sg as [|e Sg IH]; cbn; [reflexivity|]. intros H. rewrite IH by tauto.
+  destruct (String.eqb_spec x (fs_name e)); [exfalso; apply H; left; congruence | reflexivity].
+Qed.
+Lemma sig_lookup_in Sg s : NoDup (map fs_name Sg) -> In s Sg -> sig_lookup Sg (fs_name s) = Some s.
+Proof.
+  induction Sg as [|e Sg IH]; cbn [map In sig_lookup]; [tauto|]. intros Hnd [->|Hin].
+  - inversion Hnd; subst. rewrite sig_lookup_none by assumption. now rewrite String.eqb_refl.
+  - inversion Hnd; subst. now rewrite IH.
+Qed.
+Lemma sig_lookup_some Sg x s : sig_lookup Sg x = Some s -> In s Sg /\ fs_name s = x.
+Proof.
+  induction Sg as [|e Sg IH]; cbn; [discriminate|]. destruct (sig_lookup Sg x) eqn:E.
+  - intros H; inversion H; subst. destruct (IH eq_refl); auto.
+  - destruct (String.eqb_spec x (fs_name e)); [|discriminate]. intros H; inversion H; subst; auto.
+Qed.
+Lemma sig_lookup_perm Sg Sg' : NoDup (map fs_name Sg) -> Permutation Sg Sg' -> forall x, sig_lookup Sg x = sig_lookup Sg' x.
+Proof.
+  intros Hnd Hp x.
+  assert (Hnd' : NoDup (map fs_name Sg')) by (eapply Permutation_NoDup; [apply Permutation_map, Hp | exact Hnd]).
+  destruct (sig_lookup Sg x) as [s|] eqn:E.
+  - destruct (sig_lookup_some _ _ _ E) as [Hin <-]. symmetry. apply sig_lookup_in; [exact Hnd'|]. eapply Permutation_in; eauto.
+  - destruct (sig_lookup Sg' x) as [s'|] eqn:E'; [|reflexivity].
+    destruct (sig_lookup_some _ _ _ E') as [Hin <-].
+    rewrite sig_lookup_in in E; [discriminate | exact Hnd|]. eapply Permutation_in; [apply Permutation_sym, Hp | exact Hin].
+Qed.
+
+(* the bodies *)
+Definition tcf1 (D : tenv) (Sg : sigma) (f : fundef) : tcr fundef :=
+  tdo b <- tc_form D Sg (make_ctx (fn_params f)) None (fn_type f) (fn_body f);
+  TOk {| fn_name := fn_name f; fn_params := fn_params f; fn_body := b; fn_type := fn_type f; fn_explicit := fn_explicit f |}.
+Lemma tc_funs_spec D Sg : forall fs out, tc_funs D Sg fs = TOk out <-> Forall2 (fun f o => tcf1 D Sg f = TOk o) fs out.
+Proof.
+  induction fs as [|f fs IH]; intros out; cbn [tc_funs].
+  - split; [intros H; inversion H; constructor | intros H; inversion H; reflexivity].
+  - unfold tcf1. split.
+    + intros H. tinv H. inversion H; subst. constructor; [now rewrite E | apply IH, E0].
+    + intros H. inversion H as [|? o ? r' Ho Hr]; subst. apply IH in Hr. tinv Ho. inversion Ho; subst.
+      rewrite E, Hr. reflexivity.
+Qed.
+
+Lemma env_eqv_refl D : env_eqv D D. Proof. repeat split. Qed.
+
+Lemma tc_procs_sg D Sg Sg' all assumed : (forall f, sig_lookup Sg f = sig_lookup Sg' f) ->
+  forall ps, tc_procs D Sg all assumed ps = tc_procs D Sg' all assumed ps.
+Proof.
+  intros HS. induction ps as [|q ps IH]; cbn [tc_procs]; [reflexivity|].
+  rewrite (proj1 (tc_form_ext D D (env_eqv_refl D) Sg Sg' HS)). rewrite IH. reflexivity.
+Qed.
+
+Theorem tc_program_perm_funs p fs' q : Permutation (p_funs p) fs' -> tc_program p = TOk q ->
+  exists q', tc_program (with_funs fs' p) = TOk q' /\ Permutation (p_funs q) (p_funs q') /\
+             p_procs q' = p_procs q /\ p_assumed q' = p_assumed q /\ p_types q' = p_types q.
+Proof.
+  intros Hp H. unfold tc_program in *. cbn [with_funs p_types p_funs p_procs p_assumed].
+  tinv H. inversion H; subst. clear H.
+  rewrite E. cbn [tbind]. rewrite E0. cbn [tbind].
+  destruct (prelim_funs_perm _ _ _ _ Hp E1) as (fs1' & Ef1 & Hp1 & Hnd1).
+  rewrite Ef1. cbn [tbind]. rewrite E2. cbn [tbind].
+  (* sigma *)
+  apply make_sigma_spec in E3.
+  destruct (Permutation_Forall2 Hp1 E3) as (Sg' & HpS & E3').
+  assert (HndS : NoDup (map fs_name a3)) by (rewrite (Forall2_map_eq _ fn_name fs_name _ _ (sig1_name (p_types p)) E3); exact Hnd1).
+  pose proof (sig_lookup_perm _ _ HndS HpS) as HS.
+  apply make_sigma_spec in E3'. rewrite E3'. cbn [tbind].
+  (* bodies *)
+  apply tc_funs_spec in E4.
+  destruct (Permutation_Forall2 Hp1 E4) as (fs2' & Hp2 & E4').
+  assert (E4'' : tc_funs (p_types p) Sg' fs1' = TOk fs2').
+  { apply tc_funs_spec. clear - E4' HS. induction E4' as [|f o l m Ho _ IH]; constructor; [|exact IH]. unfold tcf1 in *.
+    rewrite <- (proj1 (tc_form_ext _ _ (env_eqv_refl _) a3 Sg' HS)). exact Ho. }
+  rewrite E4''. cbn [tbind].
+  rewrite <- (tc_procs_sg _ a3 Sg' _ _ HS). rewrite E5. cbn [tbind].
+  eexists. split; [reflexivity|]. cbn. auto.
+Qed.
+
+Theorem perm_funs_invariant p fs' : Permutation (p_funs p) fs' ->
+  accepts (typecheck (with_funs fs' p)) = accepts (typecheck p).
+Proof.
+  intros Hp. unfold typecheck.
+  destruct (tc_program p) as [q| | |] eqn:E.
+  - destruct (tc_program_perm_funs p fs' q Hp E) as (q' & -> & _). reflexivity.
+  - destruct (tc_program (with_funs fs' p)) as [q'| | |] eqn:E'; try reflexivity.
+    destruct (tc_program_perm_funs (with_funs fs' p) (p_funs p) q' (Permutation_sym Hp) E') as (q'' & E'' & _).
+    replace (with_funs (p_funs p) (with_funs fs' p)) with p in E'' by (destruct p; reflexivity). congruence.
+  - destruct (tc_program (with_funs fs' p)) as [q'| | |] eqn:E'; try reflexivity.
+    destruct (tc_program_perm_funs (with_funs fs' p) (p_funs p) q' (Permutation_sym Hp) E') as (q'' & E'' & _).
+    replace (with_funs (p_funs p) (with_funs fs' p)) with p in E'' by (destruct p; reflexivity). congruence.
+  - destruct (tc_program (with_funs fs' p)) as [q'| | |] eqn:E'; try reflexivity.
+    destruct (tc_program_perm_funs (with_funs fs' p) (p_funs p) q' (Permutation_sym Hp) E') as (q'' & E'' & _).
+    replace (with_funs (p_funs p) (with_funs fs' p)) with p in E'' by (destruct p; reflexivity). congruence.
+Qed.
